@@ -1058,7 +1058,7 @@ class UnknownNode:
                             ('Incorrect attribute type where value {}'
                              ' of type {} was required').format(
                                 value, type(value)))
-                if node.get_value() != value:
+                if self.__get_value(node) != value:
                     raise RecognitionError((
                         'Incorrect attribute value {} where {} was required'
                             ).format(value_node.value, value))
@@ -1093,7 +1093,7 @@ class UnknownNode:
                 node = Node(value_node)
                 if not node.is_scalar(type(value)):
                     return
-                if node.get_value() == value:
+                if self.__get_value(node) == value:
                     raise RecognitionError(
                             (
                                 'Incorrect attribute value {} where {} was not'
@@ -1102,3 +1102,18 @@ class UnknownNode:
         if not found:
             raise RecognitionError(
                     'Required key "{}" not found'.format(attribute))
+
+    def __get_value(self, node: Node) -> ScalarType:
+        """Returns the value of a scalar node.
+
+        If the scalar has an explicit tag that its value does not
+        match (e.g. ``!!int abc``), this raises a RecognitionError.
+
+        Args:
+            node: The scalar node to get the value of.
+        """
+        try:
+            return node.get_value()
+        except (ValueError, KeyError, IndexError, AttributeError):
+            raise RecognitionError('Invalid value {} for a {}'.format(
+                node.yaml_node.value, node.yaml_node.tag))
